@@ -4,6 +4,7 @@ import Cuke.Model.SchedLts
 import Cuke.Props.C06
 import Cuke.Lemmas.SchedLts
 import Cuke.Lemmas.SchedExit
+import Cuke.Lemmas.SchedTrip
 /-!
 # C08 — Fail-fast stops dispatching after the first final failure, yet closes cleanly
 Model: `Cuke.tripFailFast`, `Cuke.Slots` (`brk`), `Cuke.getBatch`, `Cuke.isFinished`, `Cuke.finishAll`
@@ -187,5 +188,78 @@ theorem lts_failfast_transparent_if_nothing_fails (c : SCfg) (x y : Bool) (ls : 
     replayed without a disagreement, and with fail-fast switched on it is replayed to the very same state -/
 example : (∀ l ∈ Cuke.C05.rlog, isFailureLabel l = false) ∧
     (finalChecks (accept (withFF Cuke.C05.rcfg true false) Cuke.C05.rlog)).dis.isEmpty = true := by decide +kernel
+
+/-! ## Clause (i) over whole runs: nothing is dispatched after a final failure (Lemmas/SchedTrip.lean) -/
+
+/-- **Fail-fast stops dispatching, whole runs.** Under fail-fast, in every log replayed without a disagreement — of any
+    length, whatever the parser, the completions and the retries do —, once an attempt has ended as a FINAL failure
+    (`END failed, not retried`, taken while `execute` awaits its scenarios, as every `END` of a real run is: monitor
+    `endsWhileSelecting`), every later dispatch dispatches NOTHING: the attempts that may still begin are those
+    dispatched together with the failing one. (The acceptor demands that every completion notification is drained
+    before the next `features.get`, and that the trip follows the notification of the final failure at once.) -/
+theorem lts_no_dispatch_after_final_failure (c : SCfg) (hff : c.failFast = true) (pre post : List Label) (id t n : Nat)
+    (sl : Slots)
+    (hc : SchedOrd.Clean0 (accept c (pre ++ [.endA id true false t] ++ post ++ [.disp n sl])) = true)
+    (hsel : (accept c pre).phase = .selecting) : n = 0 := by
+  have hsplit : accept c (pre ++ [Label.endA id true false t] ++ post ++ [Label.disp n sl]) =
+      (post ++ [Label.disp n sl]).foldl (stepL c) (accept c (pre ++ [Label.endA id true false t])) := by
+    simp [accept, List.foldl_append]
+  rw [hsplit] at hc
+  have hc1 : SchedOrd.Clean0 (accept c (pre ++ [.endA id true false t])) = true :=
+    SchedSpin.clean0_foldl_mono c _ _ hc
+  have ha := SchedTrip.ainv_after_final_end c pre id t hc1 hsel
+  exact (SchedTrip.ainv_run c hff _ _ ha hc).2 n sl (by simp)
+
+/-- the monitor's predicate is the theorem's hypothesis: where `endsWhileSelecting` holds, every `END` was taken in
+    phase `selecting` -/
+theorem endsWhileSelecting_spec (c : SCfg) (pre post : List Label) (id t : Nat) (f r : Bool)
+    (h : SMon.endsWhileSelecting c (pre ++ [Label.endA id f r t] ++ post) = true) : (accept c pre).phase = .selecting := by
+  have fst : ∀ (ls : List Label) (a : SState × Bool), (ls.foldl (SMon.ewsStep c) a).1 = ls.foldl (stepL c) a.1 := by
+    intro ls
+    induction ls with
+    | nil => intro a; rfl
+    | cons l rest ih => intro a; simp only [List.foldl_cons]; rw [ih]; rfl
+  have sticky : ∀ (ls : List Label) (s : SState), (ls.foldl (SMon.ewsStep c) (s, false)).2 = false := by
+    intro ls
+    induction ls with
+    | nil => intro s; rfl
+    | cons l rest ih =>
+      intro s
+      simp only [List.foldl_cons]
+      have : SMon.ewsStep c (s, false) l = (stepL c s l, false) := by cases l <;> simp [SMon.ewsStep]
+      rw [this]; exact ih _
+  unfold SMon.endsWhileSelecting at h
+  simp only [List.foldl_append, List.foldl_cons, List.foldl_nil] at h
+  cases hb : ((accept c pre).phase == Phase.selecting) with
+  | true => simpa using hb
+  | false =>
+    exfalso
+    have h1 : (pre.foldl (SMon.ewsStep c) (({} : SState), true)).1 = accept c pre := fst pre _
+    have h2 : SMon.ewsStep c (pre.foldl (SMon.ewsStep c) (({} : SState), true)) (Label.endA id f r t) =
+        (stepL c (accept c pre) (Label.endA id f r t), false) := by
+      simp only [SMon.ewsStep, h1, hb, Bool.and_false]
+    rw [h2, sticky] at h
+    cases h
+
+/-! non-vacuity: limit 2, fail-fast, three scenarios; two are dispatched together, the first fails finally while the
+    second is in flight; the completion is consumed, the notification drained, the trip follows; the next dispatch
+    dispatches nothing although scenario 3 is still queued — and a log that dispatched it is rejected -/
+def fcfg : SCfg :=
+  { builderConc := some (some 2), cliConc := none, builderFF := true, cliFF := false, builderRetries := none,
+    cliRetries := none, builderAfter := none, cliAfter := none, customWhich := false, durTable := [],
+    feats := [⟨0, [], [⟨1, [], 1⟩, ⟨2, [], 1⟩, ⟨3, [], 1⟩], []⟩] }
+def fk (i : Nat) : ScenKey := ⟨0, none, i⟩
+def fpre : List Label :=
+  [.hookTake, .tx .started, .pOk 0, .ins 0 [] [⟨10, 1, none, none⟩, ⟨11, 2, none, none⟩, ⟨12, 3, none, none⟩], .pEnd,
+   .tx (.parsingFinished 1 0 3 3 0), .pFinish,
+   .get1 1 (some 2) 0 3, .get2 1 (.cont (some 2)) [10, 11] false 0, .tx (.featStarted 0), .disp 2 (.cont (some 0)),
+   .tx (.scen (fk 1) none .started), .tx (.scen (fk 2) none .started), .tx (.scen (fk 1) none .finished)]
+def fpost : List Label := [.cons true, .notif 10 true false, .brk, .get2 3 .brk [] false 1]
+
+example : fcfg.failFast = true ∧ (accept fcfg fpre).phase = .selecting ∧
+    SchedOrd.Clean0 (accept fcfg (fpre ++ [.endA 10 true false 2] ++ fpost ++ [.disp 0 .brk])) = true ∧
+    SchedOrd.Clean0 (accept fcfg (fpre ++ [.endA 10 true false 2] ++ fpost ++ [.disp 1 .brk])) = false ∧
+    SMon.endsWhileSelecting fcfg (fpre ++ [.endA 10 true false 2] ++ fpost ++ [.disp 0 .brk]) = true := by
+  decide +kernel
 
 end Cuke.C08
